@@ -218,6 +218,7 @@ CmpPW(sh, p, w, cur, now, depth) ==
 (* events                                                                  *)
 (***************************************************************************)
 Shape == Traces[tid].prog.shape
+RootFree(cur, act, now) == act /\ (IF IsLeaf(Shape) THEN cur.inv = now ELSE cur.soft = now)
 
 InitS == [t |-> 0, pre |-> Fresh(Shape), cur |-> Fresh(Shape), w |-> <<>>, wt |-> 0, ended |-> FALSE]
 
@@ -243,7 +244,8 @@ OnP(e) ==
             Cmp(Shape, e.o, v.pre, v.cur, v.act, e.t, "consumer", 0)
             \cup RootDelta(Shape, e.o, e.o.dv, v.pre, v.cur, v.act, e.t, "consumer.delta_value")
             \cup RootDelta(Shape, e.o, e.cap, v.pre, v.cur, v.act, e.t, "consumer.capture_delta")
-            \cup If(~(v.act /\ v.cur.w = e.t) /\ e.cap # <<>>, {"C04.delta_readable_after_its_cycle@consumer.capture_delta"})
+            \cup If(~(v.act /\ v.cur.w = e.t) /\ ~RootFree(v.cur, v.act, e.t) /\ e.cap # <<>>,
+                    {"C04.delta_readable_after_its_cycle@consumer.capture_delta"})
             \cup (IF S.wt = e.t THEN CmpPW(Shape, e.o, S.w, v.cur, e.t, 0) ELSE {}))
 
 OnRet(e) == Res([S EXCEPT !.ended = TRUE], If(e.ok # 1, {"run_raised_an_exception"}))
